@@ -26,6 +26,7 @@ type Oblig struct {
 	PC      *Term
 	Goal    *Term
 	Trivial bool
+	Short   bool // outside the property's selection: one short attempt only
 	Cover   bool // vacuity cover: expected sat
 	Result  string
 	Solver  string
